@@ -30,7 +30,8 @@ def seed_table():
         caught = "not run" if not lr else ", ".join(f"{c['check']} ({c['violations']})" if c["exit"] == 1 else f"{c['check']} (missed)" for c in lr["checks"])
         summ = re.sub(r"\s+", " ", m.get("summary", "")).strip()
         needs = re.sub(r"\s+", " ", m.get("needs", "")).strip()
-        rows.append(f"| {sid} | {summ[:260]} | {needs[:220]} | {caught} | {notes.get(sid, '')} |")
+        esc = lambda t: t.replace("|", "&#124;")  # noqa: E731 - a literal pipe would split the table cell
+        rows.append(f"| {sid} | {esc(summ[:260])} | {esc(needs[:220])} | {caught} | {esc(notes.get(sid, ''))} |")
     return "\n".join(rows)
 
 
